@@ -298,6 +298,7 @@ type Spec struct {
 
 	nextInline int
 	inlining   map[*types.Func]bool
+	ctxErr     map[string]bool
 
 	cache map[sumKey]*Summary
 	busy  map[*types.Func]bool
@@ -1392,6 +1393,56 @@ func (r *runner) nonNilCall(c *ast.CallExpr, st *State) bool {
 	f := core.Callee(r.info, c)
 	if f == nil || f.Pkg() == nil {
 		return false
+	}
+	// a helper of the analysed package that returns an error built from its arguments (wrap-and-report helpers):
+	// with the nil-ness of the arguments known at this call, does every exit return a non-nil error?
+	if fi := r.sp.W.Info(f); fi != nil && fi.Pkg == r.pkg && fi.Decl.Body != nil && !r.sp.inlining[f] && fi.Decl.Type.Params != nil {
+		if sig, ok := f.Type().(*types.Signature); ok && !sig.Variadic() && sig.Results().Len() == 1 {
+			var params []types.Object
+			for _, fld := range fi.Decl.Type.Params.List {
+				for _, nm := range fld.Names {
+					params = append(params, fi.Pkg.TypesInfo.Defs[nm])
+				}
+			}
+			pattern, known := "", false
+			for i, a := range c.Args {
+				v := r.exprNil(a, st)
+				pattern += string(rune('0' + v))
+				if v == isNonNil && i < len(params) {
+					known = true
+				}
+			}
+			if known {
+				if r.sp.ctxErr == nil {
+					r.sp.ctxErr = map[string]bool{}
+				}
+				key := core.FuncKey(f) + "|" + pattern
+				if v, ok := r.sp.ctxErr[key]; ok {
+					return v
+				}
+				seed := newState()
+				for i, a := range c.Args {
+					if i < len(params) && params[i] != nil {
+						if v := r.exprNil(a, st); v != 0 {
+							seed.Nil[params[i]] = v
+						}
+					}
+				}
+				if r.sp.inlining == nil {
+					r.sp.inlining = map[*types.Func]bool{}
+				}
+				r.sp.inlining[f] = true
+				savedVisit := r.sp.Visit
+				r.sp.Visit = nil
+				r.sp.nextInline = 0
+				sub := r.sp.run(fi.Pkg, fi.Decl.Type, fi.Decl.Body, r.sp.W.CFG(fi), 0, seed)
+				r.sp.Visit = savedVisit
+				delete(r.sp.inlining, f)
+				res := len(sub.Exits) > 0 && sub.Sum != nil && sub.Sum.AlwaysErr
+				r.sp.ctxErr[key] = res
+				return res
+			}
+		}
 	}
 	switch f.Pkg().Path() + "." + f.Name() {
 	case "errors.New", "fmt.Errorf", "github.com/pkg/errors.New", "github.com/pkg/errors.Errorf":
